@@ -277,9 +277,79 @@ def _work(item):
   return n, viols, len(outcomes), sample
 
 
+# ---- the same declared phase run several times (different DUTs): every run is judged on its own diagnosis results ----
+RERUN_VALUES = [1, 5, 9.5, 150]
+
+
+def rerun_sequence(seq):
+  """seq: list of (diag_present, value) runs of ONE declared phase measuring S6 (conditional validator on result A)
+  and S1.  Returns list of violations."""
+  L = progs.lib()
+  h = L['htf']
+  ma = build_measurement('ma', SPECS['S6'])
+  mb = build_measurement('mb', SPECS['S1'])
+  cur = {}
+
+  def body(test):
+    test.measurements['ma'] = cur['v']
+    test.measurements['mb'] = cur['v']
+
+  body.__name__ = 'mphase'
+  ph = h.measures(ma, mb)(h.PhaseOptions(name='mphase')(body))
+  pre = progs.make_phase('pre', {'ret': ['ok'], 'diag': ['A']}, progs.RunCtx())
+  n_validators = (len(ma.validators), len(mb.validators))
+  bad = []
+  for k, (diag_present, value) in enumerate(seq):
+    cur['v'] = value
+    res, recs, test, terr = htf.run_test([pre, ph] if diag_present else [ph])
+    prec = [p for p in recs[0].phases if p.name == 'mphase'][0]
+    exp = run_ref(('S6', 'S1'), [['set', 'ma', value], ['set', 'mb', value]], diag_present, True)
+    for name in ('ma', 'mb'):
+      m = prec.measurements[name]
+      g = {'outcome': m.outcome.name, 'marginal': bool(m.marginal)}
+      e = {'outcome': exp['meas'][name]['outcome'], 'marginal': exp['meas'][name]['marginal']}
+      if g != e:
+        bad.append(('rerun-outcome', 'run %d (result A %s, value %r): %s is %r, reference %r'
+                    % (k, 'issued' if diag_present else 'absent', value, name, g, e)))
+    if prec.outcome.name != exp['phase_outcome']:
+      bad.append(('rerun-phase-outcome', 'run %d: phase outcome %s, reference %s' % (k, prec.outcome.name, exp['phase_outcome'])))
+    if (len(ma.validators), len(mb.validators)) != n_validators or (ma.outcome.name, mb.outcome.name) != ('UNSET', 'UNSET'):
+      bad.append(('declaration-mutated', 'after run %d the declared measurements changed: validators %r -> %r, outcomes %r'
+                  % (k, n_validators, (len(ma.validators), len(mb.validators)), (ma.outcome.name, mb.outcome.name))))
+  return bad
+
+
+def rsig(seq):
+  return 'reruns: ' + ' | '.join('%s%r' % ('A:' if d else '-:', v) for d, v in seq)
+
+
+def _work_reruns(item):
+  tier, start, step = item
+  depth = 2 if tier == 'quick' else 3
+  runs = [(d, v) for d in (False, True) for v in RERUN_VALUES]
+  n, viols = 0, []
+  k = 0
+  for d in range(2, depth + 1):
+    for seq in itertools.product(runs, repeat=d):
+      k += 1
+      if k % step != start:
+        continue
+      n += 1
+      for kind, what in rerun_sequence(list(seq)):
+        viols.append(('%s:%s' % (kind, rsig(seq)), '%s: %s' % (rsig(seq), what), {'reruns': [list(x) for x in seq]}))
+  return n, viols
+
+
 def run(tier):
   rep = common.Report(PID, tier, 'model_checking')
   progs.lib()
+  step = 8
+  rr = common.pmap(_work_reruns, [(tier, s, 16) for s in range(16)], chunksize=1)
+  for r in rr:
+    rep.merge_violations(r[1])
+  nrr = sum(r[0] for r in rr)
+  rep.add_part('reruns-of-one-declared-phase', states=nrr, transitions=nrr, traces_validated_against_impl=nrr, evaluations=nrr,
+               exhaustive=True, samples=[{'sequence': 'all sequences of 2 (3 in thorough) runs over {A issued, absent} x %r' % (RERUN_VALUES,)}])
   step = 8
   items = [(tier, pi, s, step) for pi in range(len(PAIRS)) for s in range(step)]
   res = common.pmap(_work, common.rotate(items), chunksize=1)
@@ -313,6 +383,11 @@ def fix_hist(hist):
 
 def replay(art):
   r = art['replay']
+  if 'reruns' in r:
+    bad = rerun_sequence([tuple(x) for x in r['reruns']])
+    for b in bad:
+      print('VIOLATED', b)
+    return 1 if bad else 0
   hist = fix_hist(r['hist'])
   bad, got = compare(tuple(r['pair']), hist, r['diag_present'], r['catch_last'])
   print(hsig(tuple(r['pair']), hist), got)
